@@ -165,7 +165,14 @@ class Cost:
         # direct recursion: the re-entered call is charged the cost of the paths that do not re-enter (accepted shape: W-reentry)
         rec_bbs = {c.loc.bb for b2, c in self.recursion_sites if b2.path == body.path and c.local_callee() is not None and c.local_callee().path == body.path}
         if rec_bbs:
-            nonrec = self._longest(body, w, rec_bbs)
+            # the re-entered call does not take the branch that re-enters (W-reentry: that branch is guarded by "main table full" and the
+            # re-entry is dominated by the installation of a bigger main table): its cost is that of the paths outside the guarded branch
+            excl = set(rec_bbs)
+            for r in rec_bbs:
+                tb = reentry_guard(ctx, body, r)
+                if tb is not None:
+                    excl |= {x for x in body.reachable() if x == tb or tb in body.dom().get(x, set())}
+            nonrec = self._longest(body, w, excl)
             w2 = dict(w)
             for x in rec_bbs:
                 w2[x] = self.add(w[x], self.mul(nonrec, mult.get(x, 1)))
@@ -206,6 +213,29 @@ class Cost:
                 b = best[s_] if b is None else self.mx(b, best[s_])
             best[x] = None if b is None else self.add(w.get(x, self.ZERO), b)
         return best.get(0) or dict(self.ZERO)
+
+
+def reentry_guard(ctx, body, rec_bb):
+    """the block entered when `MAIN.capacity() == MAIN.len()` holds, if that test dominates block rec_bb and rec_bb lies on its true edge"""
+    for bb in body.dom().get(rec_bb, set()):
+        t = body.term(bb)
+        if t["k"] != "switch":
+            continue
+        d = body.source_def(t["discr"])
+        if d is None or d[1] != "assign" or d[2]["rv"]["k"] != "binop" or d[2]["rv"]["op"] != "Eq":
+            continue
+        names = set()
+        for o in (d[2]["rv"]["a"], d[2]["rv"]["b"]):
+            sd = body.source_def(o)
+            if sd is not None and sd[1] == "call":
+                cc = ctx.call_at(body, sd[0].bb)
+                if ctx.role(body, cc.arg_path(0)) == MAIN:
+                    names.add(cc.tname)
+        if names == {HBT + "capacity", HBT + "len"}:
+            tb = t["otherwise"]
+            if (tb in body.dom().get(rec_bb, set()) or tb == rec_bb) and body.preds(tb, True) == [bb]:
+                return tb
+    return None
 
 
 def cost_engine(ctx):
@@ -283,33 +313,14 @@ def rule_w_reentry(ctx):
                 if t["k"] == "call":
                     tail = False
         # (2) dominated by replacer call
-        dom_rep = False
+        dom_rep = any(rb.path == body.path and body.dominates(rloc, c.loc) for rb, rloc, _ in replacer_sites(ctx))
         for c2 in ctx.calls(body):
             lc = c2.local_callee()
             if lc is not None and body.dominates(c2.loc, c.loc) and c2.loc != c.loc:
                 if lc.path in reps or any(p in reps for p in ctx.reachable_bodies(lc.path)):
                     dom_rep = True
         # (3) guarded by capacity == len on MAIN
-        guard = False
-        for bb in body.dom().get(c.loc.bb, set()):
-            t = body.term(bb)
-            if t["k"] != "switch":
-                continue
-            d = body.source_def(t["discr"])
-            if d is None or d[1] != "assign" or d[2]["rv"]["k"] != "binop" or d[2]["rv"]["op"] != "Eq":
-                continue
-            names = set()
-            for o in (d[2]["rv"]["a"], d[2]["rv"]["b"]):
-                sd = body.source_def(o)
-                if sd is not None and sd[1] == "call":
-                    cc = ctx.call_at(body, sd[0].bb)
-                    if ctx.role(body, cc.arg_path(0)) == MAIN:
-                        names.add(cc.tname)
-            if names == {HBT + "capacity", HBT + "len"}:
-                # call must be on the true edge
-                tb = t["otherwise"]
-                if tb in body.dom().get(c.loc.bb, set()) or tb == c.loc.bb:
-                    guard = True
+        guard = reentry_guard(ctx, body, c.loc.bb) is not None
         ok = tail and dom_rep and guard
         R.inst(fn=body.path, site=c.where(), tail_call=tail, after_replacer=dom_rep, guarded_by_full_test=guard, verdict="ok" if ok else "VIOLATION")
         if not ok:
